@@ -127,7 +127,7 @@ fn calc_single(ty: Intern<Ty>, ptr_ty: types::Type) {
             0 => FinalTy::Number(NumberType {
                 ty: types::I32,
                 float: false,
-                signed: true,
+                signed,
             }),
             8 => FinalTy::Number(NumberType {
                 ty: types::I8,
@@ -162,8 +162,8 @@ fn calc_single(ty: Intern<Ty>, ptr_ty: types::Type) {
         _ if ty.is_zero_sized() => FinalTy::Void,
         Ty::NotYetResolved | Ty::Unknown => FinalTy::Void,
         Ty::IInt(bit_width) => finalize_int(*bit_width, true),
-        // {uint} => i32
-        Ty::UInt(0) => finalize_int(0, true),
+        // {uint} => u32
+        Ty::UInt(0) => finalize_int(0, false),
         Ty::UInt(bit_width) => finalize_int(*bit_width, false),
         Ty::Float(bit_width) => match bit_width {
             0 => FinalTy::Number(NumberType {
